@@ -174,42 +174,8 @@ Proof.
     unfold Prec_gt_0, Prec_lt_emax in *. lia.
 Qed.
 
-Theorem e_abs_exact : forall x : fl, e_abs prec emax _ _ x = spec_fabs prec emax x.
-Proof.
-  intros x. unfold e_abs, spec_fabs, feq, fge. rewrite f_zero_eq.
-  destruct x as [s|s| |s m e H].
-  - reflexivity.
-  - destruct s; [|reflexivity].
-    cbn [Beqb Bleb]. change (Beqb (B754_infinity true : fl) (B754_zero false)) with false.
-    change (Bleb (B754_zero false : fl) (B754_infinity true)) with false. cbn iota.
-    unfold fmul. destruct (of_Z prec emax _ _ (-1)) as [s'|s'| |s' m' e' H'] eqn:E;
-      destruct of_Z_m1 as [Hr [Hf Hs]]; rewrite E in *; try discriminate; cbn in *.
-    + lra.
-    + now subst s'.
-  - change (Beqb (B754_nan : fl) (B754_zero false)) with false.
-    change (Bleb (B754_zero false : fl) B754_nan) with false. cbn iota.
-    unfold fmul. now destruct (of_Z prec emax _ _ (-1)).
-  - destruct s.
-    + change (Beqb (B754_finite true m e H : fl) (B754_zero false)) with false.
-      change (Bleb (B754_zero false : fl) (B754_finite true m e H)) with false. cbn iota.
-      unfold fmul.
-      destruct of_Z_m1 as [Hr [Hf Hs]].
-      generalize (Bmult_correct prec emax _ _ mode_NE (B754_finite true m e H) (of_Z prec emax _ _ (-1))).
-      rewrite Hr.
-      set (x := B754_finite true m e H).
-      assert (Hx : (B2R x * -1)%R = (- B2R x)%R) by lra. rewrite Hx.
-      rewrite round_generic; [|auto with typeclass_instances|apply generic_format_opp, generic_format_B2R].
-      rewrite Rlt_bool_true by (rewrite Rabs_Ropp; apply abs_B2R_lt_emax).
-      intros [H1 [H2 H3]].
-      apply B2R_Bsign_inj.
-      * rewrite H2. now rewrite Hf.
-      * reflexivity.
-      * rewrite H1. unfold x. cbn [Babs B2R]. rewrite <- F2R_Zopp. reflexivity.
-      * rewrite H3, Hs; [reflexivity|].
-        change (is_finite x) with true in H2. cbn [andb] in H2. rewrite Hf in H2.
-        destruct (Bmult mode_NE x (of_Z prec emax prec_gt_0_ prec_lt_emax_ (-1))); try discriminate; reflexivity.
-    + reflexivity.
-Qed.
+Theorem e_abs_exact : forall x : fl, e_abs prec emax x = spec_fabs prec emax x.
+Proof. intros [s|s| |s m e H]; try (destruct s; reflexivity). reflexivity. Qed.
 
 End Fmt.
 
